@@ -1,0 +1,7 @@
+//go:build !verif
+// +build !verif
+
+package livesql
+
+// vh is a verification hook; it compiles to nothing without the verif build tag.
+func vh(string, ...interface{}) {}
